@@ -187,6 +187,14 @@ def task(args):
     return n, out, classes
 
 
+def _dispatch(t):
+    if t[0] == '@deferred':
+        from .. import deferred
+        n, viol, cl = deferred.task(t[1])
+        return n, [(k, dict(det, deferred=True)) for k, det in viol], set(('deferred',) + c for c in cl)
+    return task(t)
+
+
 def run(tier, seed):
     tm = report.Timer()
     col = report.Collector(PROP)
@@ -247,7 +255,12 @@ def run(tier, seed):
     for state in STATES:
         for i in range(0, len(named), 12):
             tasks.append((state, named[i:i + 12], True))
-    res = explore.pmap(task, tasks, chunk=1)
+    # hostile input between a REST send's answer and the run of its reactor.callFromThread call (vf/deferred.py): afterwards the agent is
+    # in session or has closed cleanly with its reconnect scheduled - and nothing else armed
+    from .. import deferred
+    dts = deferred.tasks(PROP, tier)
+    tasks += [('@deferred', a) for a in dts]
+    res = explore.pmap(_dispatch, tasks, chunk=1)
     explore.close_pool()
     total = 0
     classes = set()
@@ -259,7 +272,7 @@ def run(tier, seed):
     n_new, n_known, summary = col.finish('c10-delivery')
     cov = {
         'states': len(STATES), 'transitions': total, 'traces_validated_against_impl': total,
-        'evaluations': total, 'distinct_nontrivial': len(set((c[0], c[1], c[2]) for c in classes)),
+        'evaluations': total, 'distinct_nontrivial': len(set((c[0], c[1], c[2]) for c in classes if len(c) > 2)),
         'samples': [{'state': report.pick(list(STATES), seed + i, 1)[0], 'frame': it[1].hex()[:160], 'kind': it[0]}
                     for i, it in enumerate(report.pick(items, seed, 3))],
         'hostile_frames': len(items), 'seeds': len(corpus), 'mutated_seeds': len(mut_seeds), 'session_states': list(STATES),
@@ -279,6 +292,16 @@ def replay(path):
     import json
     d = json.load(open(path))
     w = d['witness']
+    if w.get('deferred'):
+        from .. import deferred
+        a, b = report.fresh(deferred.replay, PROP, w), report.fresh(deferred.replay, PROP, w)
+        if repr(a) != repr(b):
+            print('HARNESS-ERROR: replay is not deterministic')
+            return 2
+        print('events after Established:', w['history'])
+        for k, det in a:
+            print(k, det)
+        return 1 if any(d['key'].startswith(k + '|') for k, _ in a) else 0
     frame = bytes.fromhex(w['frame'])
     a, b = report.twice(check_one, w['state'], w['label'], frame)
     if repr(a) != repr(b):
@@ -294,4 +317,4 @@ def replay(path):
         print(keys)
     if d['key'] in keys:
         return 1
-    return report.replay_in_task(d, task)
+    return report.replay_in_task(d, _dispatch)
